@@ -674,22 +674,25 @@ fn run_case(c: &Case) -> Result<(bool, bool), Failure> {
 				model.on_start_processing();
 				let mut want = Vec::with_capacity(*n);
 				let mut left = *n;
+				let _ = crate::models::param::take_edge_hit();
 				while left > 0 {
 					let k = left.min(c.ibs);
 					want.extend(model.chunk(k));
 					left -= k;
 				}
+				// a gain within 2e-3 dB of the -60 dB edge: 0 and 0.001 are both right there
+				let edge = crate::models::param::take_edge_hit();
 				for i in 0..*n {
 					let (l, r) = (cb.out[2 * i] as f64, cb.out[2 * i + 1] as f64);
 					if l != 0.0 || r != 0.0 {
 						nonzero = true;
 					}
 					let (wl, wr, wmag) = want[i];
-					let tol = 1e-5 * (1.0 + wl.abs().max(wr.abs()));
+					let tol = 1e-5 * (1.0 + wl.abs().max(wr.abs())) + if edge { 4e-3 } else { 0.0 };
 					if (l - wl).abs() > tol || (r - wr).abs() > tol {
 						return Err(Failure::simple("signal-flow-sum", format!("op #{oi}, output frame {} (frame {i} of this callback): got ({l}, {r}), signal-flow model gives ({wl}, {wr}); case {c:?}", t_total + i)));
 					}
-					if wmag == 0.0 {
+					if wmag == 0.0 && !edge {
 						ensure!(l == 0.0 && r == 0.0, "exact-silence", "op #{oi}, frame {i}: got ({l}, {r}) where nothing is routed to the output; case {c:?}");
 					}
 				}
